@@ -67,4 +67,20 @@ ObsProps ==
   /\ Chk("C17_ContradictionReported", C17_ContradictionReported) /\ Chk("C17_HistoryKept", C17_HistoryKept) /\ Chk("C17_OthersUnaffected", C17_OthersUnaffected)
   /\ Chk("C18_Twin", T_C18_Twin)
   /\ Chk("C20_StatusTruth", C20_StatusTruth) /\ Chk("C20_FailuresOnce", C20_FailuresOnce)
+\* executions of the real binary on the real file system: the threads run freely, so there are no step events except the executions
+\* logged by the commands themselves; what was taken from the cache or backed up is not observed, hence no C20_StatusTruth
+ObsPropsReal ==
+  /\ Chk("C01_ScratchEqual", C01_ScratchEqual)
+  /\ Chk("C02_AtMostOnce", C02_AtMostOnce) /\ Chk("C02_NoNeedlessRun", C02_NoNeedlessRun) /\ Chk("C02_RepeatIsNoOp", C02_RepeatIsNoOp)
+  /\ Chk("C03_SourcesFinal", C03_SourcesFinal)
+  /\ Chk("C04_ErrorsExact", C04_ErrorsExact) /\ Chk("C04_DependentsDoNotRun", C04_DependentsDoNotRun)
+  /\ Chk("C04_OthersStillBuilt", C04_OthersStillBuilt) /\ Chk("C04_NothingRemembered", C04_NothingRemembered) /\ Chk("C04_TriedAgain", C04_TriedAgain)
+  /\ Chk("C05_Returns", C05_Returns)
+  /\ Chk("C07_ContentAddressed", (ev.a \in {"ret"}) => C07_ContentAddressed)
+  /\ Chk("C08_NothingLost", (ev.a \in {"ret"}) => C08_NothingLost)
+  /\ Chk("C09_OnlyScopeTouched", C09_OnlyScopeTouched)
+  /\ Chk("C10_CleanMovesToCache", C10_CleanMovesToCache) /\ Chk("C10_BuildBringsBack", C10_BuildBringsBack)
+  /\ Chk("C12_InvalidRejected", C12_InvalidRejected) /\ Chk("C16_DamagedRejected", C16_DamagedRejected)
+  /\ Chk("C17_HistoryKept", C17_HistoryKept)
+  /\ Chk("C20_FailuresOnce", C20_FailuresOnce)
 =============================================================================
